@@ -290,6 +290,17 @@ void World::exec(const Op& op, const Profile& p)
       for (int i = 0; i < n; ++i) blk[i] = ::operator new(24 + 16 * ((seed >> (i % 16)) % 28));
       for (int i = 0; i < n; ++i) ::operator delete(blk[(i * 5 + seed) % n]);
    }
+   if (std::strcmp(tab[k].name, "AGAIN") == 0) {
+      // the previous op once more, byte for byte: a generative factory asked twice with the same arguments must hand out
+      // two nodes, a unifying one the same node
+      if (last_kind >= 0) {
+         findings.count(std::string("again_") + tab[last_kind].name);
+         tab[last_kind].fn(*this, last_op);
+      }
+      return;
+   }
+   last_op = op;
+   last_kind = k;
    tab[k].fn(*this, op);
 }
 
